@@ -619,6 +619,9 @@ impl Prop for C05Prop {
             Ok(_) => Verdict::Pass,
         })
     }
+    fn sut_crash_is_violation(&self) -> bool {
+        false
+    }
     fn case_timeout(&self) -> (u64, bool) {
         (90, false)
     }
